@@ -371,6 +371,26 @@ PROPS["C03"] = {
                     "string values stay below 32 characters, so BASIC09's fixed string storage never truncates"],
 }
 
+import suite_layout  # noqa: E402
+
+PROPS["C08"] = {
+    "lean": ["CocoVerif.Props.C08"],
+    "lean_extra": B09_LEAN_EXTRA + ["CocoVerif.Model.Cli"],
+    "suites": [{"name": "layout", "relevant": lambda c: True, "oracle": suite_layout.oracle, "classify": suite_layout.classify}],
+    "search": None,
+    "rule": "base programs: 43 probes (one per statement kind, fully spaced), the bundled examples, test-suite programs and "
+            "grammar-directed generated programs without optional blanks (quick 40+40+2, thorough 400+400+50); variants of each: "
+            "every (quick: 10 sampled) single token boundary at 0/1/2 blanks with keyword/identifier boundaries keeping one, all "
+            "boundaries minimal / 2 blanks / random, `?` for PRINT, empty lines first/between/last, a line of blanks, CR LF, bare CR, "
+            "no final line end, trailing NUL, a blank inside a numeric literal next to E / sign / & / H, a blank between two digits, "
+            "blanks before a line number; string literals, REM and ' comments and DATA item lists are never touched; each variant "
+            "is converted by the real convert() and compared with the conversion of the base spelling (both rejected or "
+            "byte-identical); distinct = distinct variant text",
+    "trusted": B09_TRUSTED + ["harness/layout.py: the lexer that decides what a token boundary is (strings, REM / ' / DATA tails are "
+                              "content; words, numbers, hex literals and operators are tokens)"],
+    "assumptions": ["layouts are those of the property's quantifier: 0-2 blanks at token boundaries; tabs and lower case are not layout"],
+}
+
 import suite_expr  # noqa: E402
 
 PROPS["C01"] = {
@@ -496,6 +516,11 @@ def replay_witness(f):
         o = {"flags": w.get("flags", "0100000"), "storage": 32, "procname": "", "sizes": []}
         case = {"text": w["text"], "opts": o}
         return suite_ctl.oracle(case, impl_b09.convert(w["text"], o))
+    if isinstance(w, dict) and w.get("type") == "layout":
+        import impl_b09
+        case = {"kind": w["kind"], "text": w["text"], "base": w["base"], "detail": "", "opts": suite_layout.OPTS,
+                "aux": {"base": impl_b09.convert(w["base"], suite_layout.OPTS)}}
+        return suite_layout.oracle(case, impl_b09.convert(w["text"], suite_layout.OPTS))
     if isinstance(w, dict) and w.get("type") == "sem":
         import impl_b09
         o = {"flags": w.get("flags", "1100100"), "storage": w.get("storage", 32), "procname": "", "sizes": []}
